@@ -3,30 +3,72 @@
 
     Model: Select/Eligible.v ([create] = the selection part of
     wallet.txToOutputs over the candidates [wallet_cands] = wtxmgr
-    UnspentOutputs of Tx/Store.v decorated by the address manager lookup).
+    UnspentOutputs of Tx/Store.v decorated by the address manager lookup;
+    publication of a created transaction = the history events
+    [publish_accepted] / [publish_rejected]).
     Ledger: Tx/Ledger.v ([known], [spent_by_known], [leased], credited
     outputs); histories and [chain_consistent]: Tx/Hist.v; the store refines
     the ledger on every chain-consistent history (Tx/RefineAll.v).
 
     Quantifiers: every universe and chain-consistent history (receipts,
-    spends, confirmations, reorgs, leases), every request (account, scope,
+    spends, confirmations, reorgs, removals, leases - by this wallet and by
+    anybody else), every request (account, key scope = (purpose, coin type),
     minconf, fee rate, strategy, filter, explicit selection, dry run), every
-    lock set and chain height ([wctx]), every address-manager lookup [own],
-    every shuffle that is a permutation ([is_shuffle]: the random strategy)
-    and every sequence of targets the authoring loop may ask for.
+    lock set and chain height ([wctx]; a restart empties the in-memory lock
+    set and leaves the store as it is, so it is covered by the quantifier over
+    [x_locked]), every address-manager lookup [own], every shuffle that is a
+    permutation ([is_shuffle]: the random strategy) and every sequence of
+    targets the authoring loop may ask for.
 
     Build order: after Tx/RefineAll.v (theorem [refinement]) and Tx/InvObs.v,
     Generated/SelectFacts.v, Select/Eligible.v, Select/EligibleProofs.v.
 
-    One regenerated fact is discharged here by computation ([eq_refl]):
-    [explicit_selection_rejects_duplicates] (Generated/SelectFacts.v, read
-    from wallet/createtx.go by harness/cmd/extract-c06).  While the source
-    does not reject a repeated outpoint in an explicit selection this file
-    does not compile and the check reports the broken obligation
-    ([C06_refuted_duplicate_selection] is the witness).
+    Two regenerated facts are discharged here by computation ([eq_refl]):
+    [explicit_selection_rejects_duplicates] and
+    [explicit_selection_requires_eligible] (Generated/SelectFacts.v, read from
+    the source of the explicit selection loop by harness/cmd/extract-c06 or,
+    when its shape is not recognised, determined by running the witness
+    scenarios below on the built code: c06 -probe).  While the code does not
+    reject a repeated / an ineligible outpoint in an explicit selection this
+    file does not compile and the check reports the broken obligation
+    ([C06_refuted_duplicate_selection], [C06_refuted_ineligible_selection] are
+    the witnesses).
 
-    NOT proved here: signature validity (cryptographic).  It is exercised at
-    run time on every created input with the txscript engine (lib/c06.py). *)
+    KNOWN LIMITATIONS (also in the check's evidence):
+    - S13 (DESIGN section 6): [Wallet.FundPsbt] with CALLER-SUPPLIED inputs
+      (wallet/psbt.go, the `default:` arm) does not go through [create]: it
+      only establishes that the inputs belong to the wallet (DecorateInputs)
+      and are named once; spent, leased, locked, unconfirmed or immature
+      inputs are accepted there (callers lease their inputs first).  The
+      theorems below are about [create] = CreateSimpleTx / SendOutputs /
+      SendOutputsWithInput / FundPsbt WITHOUT inputs; for FundPsbt-with-inputs
+      only ownership and single use are asserted at run time.
+    - NOT proved here: signature validity (cryptographic).  It is exercised at
+      run time on every input of every signed result with the txscript engine
+      (lib/c06.py).  [cr_signed] only records the sign / skip decision.
+    - [own], the address manager's script -> (scope, account) lookup, is a
+      parameter (property C03 is about it); at run time the oracle uses an
+      independent BIP32 derivation, the keys it imported itself and the
+      accounts it imported as watch-only.
+    - The imported account ([ImportedAddrAccount]) is reported watch-only by the
+      address manager whatever keys it holds; since commit 7cd4d93 the
+      sign / skip decision looks at the keys of the inputs ([skip_signing]).
+      FinalizePsbt still skips every input of the imported account.
+    - A watch-only ACCOUNT in a wallet that has private keys: SendOutputs tests
+      the wallet-level flag only and hands the unsigned result to the backend
+      instead of returning ErrTxUnsigned (observation
+      unsigned_transaction_handed_to_backend; watch-only results are outside
+      the property's signature clause).
+    - Concurrency: requests are modelled one at a time.  The serialised
+      section of the code (txCreator) ends BEFORE SendOutputs records the
+      spend, so two SendOutputs calls issued at once can select the same coin
+      (observed on the unchanged tree, recorded as concurrent_sends_shared_coin);
+      the reuse theorems are about creations AFTER the publication is recorded.
+    - "Reuse" is excluded while the ledger knows the publishing transaction:
+      a conflicting transaction confirmed by the chain, a detached coinbase
+      ancestor or an explicit removal displaces it and frees its other inputs
+      ([displaced]).
+    - int32/int64 wrap-around is outside the model. *)
 From stdpp Require Import gmap list numbers sorting.
 From Coq Require Import ZArith NArith.
 From Verif Require Import Tx.Store Tx.Ledger Tx.Hist Generated.SelectFacts
@@ -90,12 +132,16 @@ Print Assumptions C06_no_output_twice_explicit.
 
 (** An explicit selection is used as given, and one that names an outpoint
     outside the eligible set - unknown, spent, leased (not a candidate), or a
-    candidate failing any test of the filter - is refused. *)
+    candidate failing any test of the filter - is refused.  Both rest on the
+    regenerated fact [explicit_selection_requires_eligible = true]. *)
 Theorem C06_explicit_selection_used_as_given :
   ∀ x r shuffle targets cs cr,
     r_explicit r ≠ [] → create x r shuffle targets cs = Some cr →
     map c_op (cr_inputs cr) = r_explicit r.
-Proof. exact create_explicit_exact. Qed.
+Proof.
+  intros x r shuffle targets cs cr.
+  exact (create_explicit_exact x r shuffle targets cs cr eq_refl).
+Qed.
 Print Assumptions C06_explicit_selection_used_as_given.
 
 Theorem C06_ineligible_explicit_input_refused :
@@ -105,7 +151,7 @@ Theorem C06_ineligible_explicit_input_refused :
     create x r shuffle targets cs = None.
 Proof.
   intros x r shuffle targets cs op Hin Hwhy.
-  apply (create_explicit_refused x r shuffle targets cs op Hin).
+  apply (create_explicit_refused x r shuffle targets cs op eq_refl Hin).
   destruct Hwhy as [Hn|Hn].
   - intros H. apply Hn. eapply elem_of_submseteq; [exact H|].
     apply fmap_submseteq, sublist_submseteq, eligible_sublist.
@@ -124,25 +170,68 @@ Theorem C06_spent_or_leased_explicit_input_refused :
     create x r shuffle targets (wallet_cands U (run U h) own aty vsz) = None.
 Proof.
   intros U h x r shuffle targets own aty vsz op Hwf Hcons Hsel [(t & Hk & Hop)|Hl].
-  - exact (explicit_spent_refused U h x r shuffle targets own aty vsz t op Hwf Hcons Hk Hop Hsel).
-  - exact (explicit_leased_refused U h x r shuffle targets own aty vsz op Hwf Hcons Hl Hsel).
+  - exact (explicit_spent_refused U h x r shuffle targets own aty vsz t op eq_refl Hwf Hcons Hk Hop Hsel).
+  - exact (explicit_leased_refused U h x r shuffle targets own aty vsz op eq_refl Hwf Hcons Hl Hsel).
 Qed.
 Print Assumptions C06_spent_or_leased_explicit_input_refused.
 
-(** Once a created transaction [t] has been published (recorded as an
-    unconfirmed transaction: [Seen t]), after ANY later sequence of
-    wallet-side events - further publications, leases, releases, clock
-    advances, sweeps - no created transaction spends an input of [t]. *)
+(** PUBLISHED INPUTS ARE NEVER REUSED.  A request creates a transaction in the
+    state after [h0]; [t] is that transaction ([is_tx_of]: its inputs are the
+    selected ones); the wallet publishes it and the backend accepts
+    ([publish_accepted t] = it is recorded).  Then, after ANY later events -
+    this wallet's further publications (accepted or rejected), leases, clock;
+    the chain's confirmations and reorganisations; other wallets' receipts and
+    spends; removals - that do not displace [t] ([never_displaced]: no
+    conflicting transaction gets confirmed, no coinbase it descends from is
+    detached, neither it nor an ancestor is removed), no later creation -
+    whatever the request, strategy, shuffle, targets, locks (so also after a
+    restart) - selects any of the inputs of the first one. *)
 Theorem C06_published_inputs_never_reused :
+  ∀ U h0 t later x0 r0 sh0 tg0 cr0 x r shuffle targets own aty vsz cr c0,
+    wf_universe U = true → is_shuffle shuffle →
+    create x0 r0 sh0 tg0 (wallet_cands U (run U h0) own aty vsz) = Some cr0 →
+    is_tx_of U t cr0 = true →
+    chain_consistent U (h0 ++ publish_accepted t ++ later) = true →
+    never_displaced U (spec_run U (h0 ++ publish_accepted t)) t later = true →
+    create x r shuffle targets (wallet_cands U (run U (h0 ++ publish_accepted t ++ later)) own aty vsz) = Some cr →
+    c0 ∈ cr_inputs cr0 → c_op c0 ∉ map c_op (cr_inputs cr).
+Proof. exact created_then_published_never_reused. Qed.
+Print Assumptions C06_published_inputs_never_reused.
+
+(** The same for any recorded transaction [t] (not only one this wallet
+    created), in terms of its inputs. *)
+Theorem C06_recorded_inputs_never_reused :
   ∀ U h0 t later x r shuffle targets own aty vsz cr op,
     wf_universe U = true → is_shuffle shuffle →
-    chain_consistent U (h0 ++ Seen t :: later) = true →
-    forallb wallet_side later = true →
+    chain_consistent U (h0 ++ publish_accepted t ++ later) = true →
+    never_displaced U (spec_run U (h0 ++ publish_accepted t)) t later = true →
     op ∈ tx_ins U t →
-    create x r shuffle targets (wallet_cands U (run U (h0 ++ Seen t :: later)) own aty vsz) = Some cr →
+    create x r shuffle targets (wallet_cands U (run U (h0 ++ publish_accepted t ++ later)) own aty vsz) = Some cr →
     op ∉ map c_op (cr_inputs cr).
-Proof. exact published_inputs_never_reused. Qed.
-Print Assumptions C06_published_inputs_never_reused.
+Proof. exact published_inputs_never_reused_gen. Qed.
+Print Assumptions C06_recorded_inputs_never_reused.
+
+(** What can displace a transaction: only a confirmation, a reorganisation or
+    a removal; the wallet's own events (further publications, leases,
+    releases, clock advances, sweeps) never do. *)
+Theorem C06_wallet_side_events_displace_nothing :
+  ∀ U sm t later, forallb wallet_side later = true → never_displaced U sm t later = true.
+Proof. exact wallet_side_never_displaced. Qed.
+Print Assumptions C06_wallet_side_events_displace_nothing.
+
+(** A REJECTED PUBLICATION LEAVES NO TRACE.  When the backend refuses a fresh
+    transaction (the ledger does not know it, nothing spends it yet) the
+    wallet removes it again: the candidates afterwards are the candidates
+    before - its inputs are spendable again and nothing else changed. *)
+Theorem C06_rejected_publication_restores_candidates :
+  ∀ U h t own aty vsz,
+    wf_universe U = true →
+    chain_consistent U (h ++ publish_rejected t) = true →
+    known (fs (spec_run U h)) t = false →
+    (∀ u, u ∈ f_unconf (fs (spec_run U h)) → spends_output_of U u t = false) →
+    wallet_cands U (run U (h ++ publish_rejected t)) own aty vsz ≡ₚ wallet_cands U (run U h) own aty vsz.
+Proof. exact rejected_publish_restores_candidates. Qed.
+Print Assumptions C06_rejected_publication_restores_candidates.
 
 (** More generally, across chain events too: as long as the ledger knows a
     transaction (confirmed or unconfirmed), none of its inputs is selected. *)
@@ -172,13 +261,23 @@ Proof.
 Qed.
 Print Assumptions C06_automatic_inputs_are_a_prefix_of_the_arrangement.
 
-(** Signing is attempted exactly for results that are neither a dry run nor
-    from a watch-only account (validity of the signatures is run-time only). *)
+(** The sign / skip decision of txToOutputs: a result is signed iff it is not
+    a dry run and either the address manager does not report the account as
+    watch-only, or it is the imported account of a wallet that holds private
+    keys and the key of every input is held (commit 7cd4d93: before it the
+    imported account was never signed).  The tie to the code is the
+    correspondence (code 6 of Select/EligibleCorr.v, on normal, custom-scope,
+    imported-key - private and public-only - and watch-only accounts and a
+    watch-only wallet) and the run-time oracle, which also verifies every
+    signature. *)
 Theorem C06_signed_unless_dry_or_watch_only :
   ∀ x r shuffle targets cs cr,
     create x r shuffle targets cs = Some cr →
-    cr_signed cr = negb (r_dry r) && negb (x_watch_only x).
-Proof. exact create_signed. Qed.
+    cr_signed cr = true ↔
+    r_dry r = false ∧
+    (x_watch_only x = false ∨
+     (r_acct r = imported_account ∧ x_wallet_wo x = false ∧ ∀ c, c ∈ cr_inputs cr → has_priv c = true)).
+Proof. exact create_signed_iff. Qed.
 Print Assumptions C06_signed_unless_dry_or_watch_only.
 
 (** ** Non-vacuity *)
@@ -193,17 +292,26 @@ Definition ex_U : universe := universe_of_list
   [ mk 2%N [(1, 0)]%N [50000; 30000] [(0, false); (1, false)]%N false;
     mk 4%N [] [100000] [(0, false)]%N true;
     mk 6%N [(1, 1)]%N [20000] [(0, false)]%N false;
-    mk 8%N [(2, 0)]%N [10000; 39000] [(1, true)]%N false ].
+    mk 8%N [(2, 0)]%N [10000; 39000] [(1, true)]%N false;
+    (* tx 9: a receipt of account 0 of the custom scope (84, 1) *)
+    mk 9%N [(1, 2)]%N [70000] [(0, false)]%N false;
+    (* tx 10: spends (2,0) too (a third party's conflicting spend) *)
+    mk 10%N [(2, 0)]%N [49000] []%N false ].
 Definition ex_h : list event := [ Confirm 2%N 10 1%N 0; Confirm 4%N 11 2%N 0; Seen 6%N ].
 Definition ex_own (op : N * N) : option owner :=
-  if (op.1 =? 6)%N then Some {| o_scope := 84; o_acct := 1 |} else Some {| o_scope := 84; o_acct := 0 |}.
+  if (op.1 =? 6)%N then Some {| o_scope := (84, 0)%N; o_acct := 1; o_priv := true |}
+  else if (op.1 =? 9)%N then Some {| o_scope := (84, 1)%N; o_acct := 0; o_priv := true |}
+  else Some {| o_scope := (84, 0)%N; o_acct := 0; o_priv := true |}.
 Definition ex_cands (h : list event) : list cand :=
   wallet_cands ex_U (run ex_U h) ex_own (fun _ => P2WPKH) (fun _ => 68).
 Definition ex_x (height : Z) (lk : list (N * N)) : wctx :=
-  {| x_height := height; x_maturity := 100; x_locked := lk; x_watch_only := false |}.
+  {| x_height := height; x_maturity := 100; x_locked := lk; x_watch_only := false; x_wallet_wo := false |}.
 Definition ex_r (acct : N) (minconf : Z) (sel : list (N * N)) : request :=
   {| r_acct := acct; r_scope := None; r_minconf := minconf; r_rate := 1000; r_strategy := Largest;
      r_explicit := sel; r_allow := fun _ => true; r_dry := false |}.
+Definition ex_rs (sc : kscope) (minconf : Z) : request :=
+  {| r_acct := 0; r_scope := Some sc; r_minconf := minconf; r_rate := 1000; r_strategy := Largest;
+     r_explicit := []; r_allow := fun _ => true; r_dry := false |}.
 Definition ins_of (o : option created) : option (list (N * N)) :=
   match o with Some cr => Some (map c_op (cr_inputs cr)) | None => None end.
 Definition id_shuffle (l : list cand) : list cand := l.
@@ -232,15 +340,66 @@ Proof. vm_compute. repeat split. Qed.
 Example C06_nonvacuous_shuffle : is_shuffle id_shuffle ∧ is_shuffle (@rev cand).
 Proof. split; intros l; [done|]. symmetry. apply Permutation_rev. Qed.
 
+(** The sign / skip decision: a normal account is signed; an account imported
+    by public key is not; the imported account is signed exactly when the
+    wallet has private keys at all and holds the key of every input. *)
+Example C06_nonvacuous_signing :
+  let x wo ww := {| x_height := 11; x_maturity := 100; x_locked := []; x_watch_only := wo; x_wallet_wo := ww |} in
+  let c p := {| c_utxo := {| u_op := (2, 0)%N; u_amt := 1; u_height := 1; u_hash := 0%N; u_coinbase := false |};
+                c_owner := Some {| o_scope := (84, 0)%N; o_acct := imported_account; o_priv := p |};
+                c_atype := P2WPKH; c_vsize := 68 |} in
+  skip_signing (x false false) (ex_r 0 1 []) [c true] = false ∧
+  skip_signing (x true false) (ex_r 3 1 []) [c true] = true ∧
+  skip_signing (x true false) (ex_r imported_account 1 []) [c true] = false ∧
+  skip_signing (x true false) (ex_r imported_account 1 []) [c true; c false] = true ∧
+  skip_signing (x true true) (ex_r imported_account 1 []) [c true] = true.
+Proof. vm_compute. repeat split. Qed.
+
+(** Key scopes are pairs: a request for BIP84 (84, 0) does not see the output
+    of the custom scope (84, 1) that shares its purpose, and vice versa; a
+    request without a scope sees both. *)
+Definition ex_h9 : list event := ex_h ++ [Confirm 9%N 11 2%N 0].
+Example C06_nonvacuous_scopes :
+  chain_consistent ex_U ex_h9 = true ∧
+  map c_op (eligible (ex_x 11 []) (ex_rs (84, 0)%N 1) (ex_cands ex_h9)) = [(2, 1); (2, 0)]%N ∧
+  map c_op (eligible (ex_x 11 []) (ex_rs (84, 1)%N 1) (ex_cands ex_h9)) = [(9, 0)]%N ∧
+  map c_op (eligible (ex_x 11 []) (ex_r 0 1 []) (ex_cands ex_h9)) = [(9, 0); (2, 1); (2, 0)]%N.
+Proof. vm_compute. repeat split. Qed.
+
+(** Publication: tx 8 is the transaction created from (2,0) in the state after
+    [ex_h]; after its accepted publication and a mix of later events by the
+    chain and by others (a block confirming tx 9 and then tx 8 itself, a lease,
+    the clock, the unconfirmed receipt tx 6 confirmed) it is never displaced
+    and (2,0) is not selected again; a rejected publication gives (2,0) back;
+    the confirmation of the conflicting tx 10 displaces tx 8 - only then is
+    the other party's double spend what keeps (2,0) away. *)
+Definition ex_later : list event :=
+  [ Confirm 9%N 12 3%N 0; Lease 1%N (2, 1)%N 600; Tick 700; Confirm 8%N 13 4%N 0; Confirm 6%N 13 4%N 0; Sweep ].
+Example C06_nonvacuous_publication :
+  let cr0 := create (ex_x 11 []) (ex_r 0 1 []) id_shuffle [15000] (ex_cands ex_h) in
+  ins_of cr0 = Some [(2, 0)]%N ∧
+  (match cr0 with Some cr => is_tx_of ex_U 8%N cr | None => false end) = true ∧
+  chain_consistent ex_U (ex_h ++ publish_accepted 8%N ++ ex_later) = true ∧
+  never_displaced ex_U (spec_run ex_U (ex_h ++ publish_accepted 8%N)) 8%N ex_later = true ∧
+  ins_of (create (ex_x 13 []) (ex_r 0 0 []) id_shuffle [1000000]
+            (ex_cands (ex_h ++ publish_accepted 8%N ++ ex_later))) = Some [(9, 0); (8, 1); (2, 1)]%N ∧
+  (* rejected: the candidates are back *)
+  chain_consistent ex_U (ex_h ++ publish_rejected 8%N) = true ∧
+  map c_op (ex_cands (ex_h ++ publish_rejected 8%N)) = map c_op (ex_cands ex_h) ∧
+  (* displaced by the confirmation of the conflicting tx 10 *)
+  chain_consistent ex_U (ex_h ++ publish_accepted 8%N ++ [Confirm 10%N 12 3%N 0]) = true ∧
+  never_displaced ex_U (spec_run ex_U (ex_h ++ publish_accepted 8%N)) 8%N [Confirm 10%N 12 3%N 0] = false.
+Proof. vm_compute. repeat split. Qed.
+
 (** Witness for the code WITHOUT a duplicate test in the explicit selection
     loop ([explicit_selection_rejects_duplicates = false], the pinned
     commit): the eligible output (2,1), named twice, is spent twice; with the
     test the selection is refused. *)
 Example C06_refuted_duplicate_selection :
   let elig := eligible (ex_x 11 []) (ex_r 0 1 []) (ex_cands ex_h) in
-  option_map (map c_op) (explicit_select_gen false elig [(2, 1); (2, 1)]%N) = Some [(2, 1); (2, 1)]%N ∧
+  option_map (map c_op) (explicit_select_gen false true elig [(2, 1); (2, 1)]%N) = Some [(2, 1); (2, 1)]%N ∧
   ¬ NoDup [(2, 1); (2, 1)]%N ∧
-  explicit_select_gen true elig [(2, 1); (2, 1)]%N = None.
+  explicit_select_gen true true elig [(2, 1); (2, 1)]%N = None.
 Proof.
   vm_compute. split_and!; [done| |done].
   intros H. apply NoDup_cons in H as [H _]. apply H. by left.
@@ -248,7 +407,26 @@ Qed.
 
 (** In general: without the test every eligible outpoint can be spent twice. *)
 Theorem C06_refuted_duplicate_selection_general :
-  ∀ elig c, c ∈ elig → NoDup (map c_op elig) →
-    explicit_select_gen false elig [c_op c; c_op c] = Some [c; c].
+  ∀ q elig c, c ∈ elig → NoDup (map c_op elig) →
+    explicit_select_gen false q elig [c_op c; c_op c] = Some [c; c].
 Proof. exact explicit_select_gen_duplicate. Qed.
 Print Assumptions C06_refuted_duplicate_selection_general.
+
+(** Witness for the code WITHOUT the miss test
+    ([explicit_selection_requires_eligible = false]): a selection naming the
+    immature coinbase output (4,0) next to the eligible (2,1) is not refused;
+    with the test it is. *)
+Example C06_refuted_ineligible_selection :
+  let elig := eligible (ex_x 11 []) (ex_r 0 1 []) (ex_cands ex_h) in
+  option_map (map c_op) (explicit_select_gen true false elig [(4, 0); (2, 1)]%N) = Some [(2, 1)]%N ∧
+  explicit_select_gen true true elig [(4, 0); (2, 1)]%N = None.
+Proof. vm_compute. done. Qed.
+
+(** In general: without the miss test an outpoint outside the eligible set
+    does not make the selection fail. *)
+Theorem C06_refuted_ineligible_selection_general :
+  ∀ b elig sel op,
+    op ∉ map c_op elig → op ∉ sel → NoDup sel → (∀ o, o ∈ sel → o ∈ map c_op elig) →
+    is_Some (explicit_select_gen b false elig (op :: sel)).
+Proof. exact explicit_select_gen_passes_over. Qed.
+Print Assumptions C06_refuted_ineligible_selection_general.
